@@ -23,6 +23,10 @@ with the field's own address -- never the expander's match arms):
     names                        := the generator computes snake_case(variant name) itself (rule below) and calls
                                     `is_<s>`, `unwrap_<s>[_ref|_mut]`, `try_unwrap_<s>[_ref|_mut]`; a wrong name does not build.
 
+Shapes `sole_unit` / `sole_tuple` / `sole_named`: exactly ONE non-ignored variant among ignored ones (the partition property
+with a one-element enabled set), the enabled variant carrying an ignored field between two same-typed non-ignored ones.
+Every owned/ref/ref_mut selection (none, `ref`, `ref_mut`, `ref, ref_mut`) occurs alone in the quick tier for Unwrap and TryUnwrap.
+
 "does not return" (kind="no_return" harnesses, see AUTHORING.md): `#[kani::proof] #[kani::should_panic]`, the input is
 restricted (kani::assume) to the wrong variants, the accessor is called and the next statement is
 `kani::cover!(true, "RETURNED")`, the only cover of the harness.  The core discharges the obligation iff Kani reports
@@ -213,6 +217,22 @@ def shapes():
         N("NamedBoth", F("Wrap<T>", "Wrap<P3>", name="w"), F("P2", name="p")),
         T("TupT", F("T", "P3"), "P2"), U("Nil")],
         gdecl="<'a, T: Copy, const N: usize>", guse="<'static, P3, 2>", where="where T: 'a")
+    # exactly ONE non-ignored variant among ignored ones (unit / tuple / named kind of the enabled variant): the enabled set has
+    # one element although the enum does not, so `v is Only` is still refutable.  The tuple form also carries a
+    # `#[try_into(ignore)]` field BETWEEN two non-ignored fields of the SAME type: a matcher that binds the wrong position
+    # still type-checks and shows up as a value-level counterexample.
+    ALLD = ("is_variant", "unwrap", "try_unwrap", "try_into")
+    S["sole_unit"] = Shape("sole_unit", [
+        T("SkippedT", "P1", ignore=ALLD), U("Only"), U("SkippedU", ignore=ALLD),
+        N("SkippedN", F("P2", name="a"), ignore=ALLD)])
+    S["sole_tuple"] = Shape("sole_tuple", [
+        U("SkippedU", ignore=ALLD), T("SkippedT", "P1", "P1", ignore=ALLD),
+        T("Only", "P1", F("P1", ti_ignore=True), "P1"),
+        N("SkippedN", F("P1", name="a"), F("P1", name="b"), ignore=ALLD)])
+    S["sole_named"] = Shape("sole_named", [
+        N("SkippedN", F("P1", name="x"), F("P1", name="z"), ignore=ALLD),
+        N("Only", F("P1", name="x"), F("P1", name="y", ti_ignore=True), F("P1", name="z")),
+        T("SkippedT", "P1", "P1", ignore=ALLD), U("SkippedU", ignore=ALLD)])
     # thorough-only shapes
     S["single"] = Shape("single", [T("Value", "P1")])
     S["triples"] = Shape("triples", [
@@ -653,17 +673,29 @@ def programs(tier):
     for s, sel in [("maybe", "all"), ("shared", "all"), ("names", "owned"), ("generic_ti", "all"), ("ignored", "all"), ("ignored", "ref")]:
         add("tin", s, ("try_into",), sel)
     add("all4", "ignored", ("is_variant", "unwrap", "try_unwrap", "try_into"))
+    # exactly one enabled variant among ignored ones (enabled variant of unit / tuple / named kind)
+    for s in ("sole_unit", "sole_tuple", "sole_named"):
+        add("isv", s, ("is_variant",))
+        add("tin", s, ("try_into",), "all")
+    for s in ("sole_unit", "sole_tuple"):      # Unwrap / TryUnwrap have no named variants
+        add("unw", s, ("unwrap",), "all")
+        add("tun", s, ("try_unwrap",), "all")
+    # every owned/ref/ref_mut selection on its own, for Unwrap and for TryUnwrap, is in the quick tier: none (unw_maybe_owned,
+    # tun_names_owned), (ref) (unw_names_ref, tun_ignored_ref), (ref_mut) (unw_ignored_mutonly, tun_maybe_mutonly), (ref, ref_mut) (*_all).
+    # A selected accessor that is not generated does not build: reported as `<key>/expansion`.
+    add("unw", "maybe", ("unwrap",), "owned")
+    add("tun", "maybe", ("try_unwrap",), "mutonly")
     if tier == "thorough":
         extra = ["single", "triples", "empties", "names2", "lifetimes"]
         for s in extra + ["generic_ti"]:
             add("isv", s, ("is_variant",))
-        for s in core_shapes + extra:
+        for s in core_shapes + extra + ["sole_unit", "sole_tuple"]:
             for sel in ("owned", "all", "ref", "mutonly"):
                 if ("unw_%s_%s" % (s, sel)) not in {p.key for p in P}:
                     add("unw", s, ("unwrap",), sel)
                 if ("tun_%s_%s" % (s, sel)) not in {p.key for p in P}:
                     add("tun", s, ("try_unwrap",), sel)
-        for s in ["maybe", "shared", "names", "ignored", "generic_ti"] + extra:
+        for s in ["maybe", "shared", "names", "ignored", "generic_ti"] + extra + ["sole_unit", "sole_tuple", "sole_named"]:
             for sel in ("owned", "all", "ref", "mut", "ownedref"):
                 if ("tin_%s_%s" % (s, sel)) not in {p.key for p in P}:
                     add("tin", s, ("try_into",), sel)
